@@ -197,13 +197,21 @@ claim("C06",
            "includes the same data in units of 1e-9.",
       technique="deductive verification: Trace clauses for delegation, arg-min postconditions over a ghost Manhattan distance; z3")
 claim("C09",
-      text="Proof (Python side): PiecewiseTreeRegressor.predict dispatches on the criterion ('mselin' -> per-leaf regressions, otherwise the tree's own "
-           "predict on the same batch); _predict_reglin (loop invariant): every row is [X[r], 1] . betas_[leaf(r)] with the coefficients of its own leaf, "
-           "the design row is the features followed by one, input never written; fit creates the compiled criterion of the requested name, restores the name "
-           "on every exit (also when the tree fit raises) and fits the per-leaf regressions iff criterion == 'mselin'. Bounded (compiled code, exact rational "
-           "oracle): both 'simple' criteria through the exported accessors for ALL (start,pos,end) with non-empty children, n<=5 (7), unit/mixed weights, 3 "
-           "sample orders: node value, impurity, children impurities, improvement; 'mselin' leaf predictions vs lstsq; leaf means; max_depth/min_samples_leaf.",
-      note="The .pyx criteria, LAPACK and the scikit-learn tree builder are outside the Python executor (not applicable to the proof; the Cython stripper "
-           "planned in the design was not built). predict_leaves / _fit_reglin are assumed on the Python side. Known finding: the fast criterion caches "
-           "prefix sums in the init order, which the splitter then re-sorts.",
-      technique="deductive verification of the Python side (loop invariant over a ghost dot product, Trace clauses); criteria only by bounded enumeration")
+      text="Proof of the compiled criteria 'simple' on the Python-subset text extracted mechanically from the .pyx files on every run (pyvc/pyxstrip.py; the "
+           "evidence lists everything dropped per file): for SimpleRegressorCriterion AND SimpleRegressorCriterionFast, for every node range [start,end) and "
+           "split position, with w[k] = sample_weight[sample_indices[k]] (or 1): node_value = sum w y / sum w; node_impurity and children_impurity = "
+           "sum w (y - mean)^2 / sum w around the range's own weighted mean; weighted_n_left/right = the weights of the two sides after update / reset / "
+           "reverse_reset; impurity_improvement and its proxy are the stated formulas (NaN at the ends). init_with_X of both classes (3 resp. 1 real loops) "
+           "establishes the object invariant (buffers hold w, w y, ids - resp. zero-filled prefix sums of w, w y, w y^2 from start); _mean, _mse, "
+           "_update_weights are verified against it (real loops with invariants over the ghost range sum psum; the fast _mse through the weighted "
+           "variance identity). Lemma schemas proved in lemmas/Counting.lean (run by the check). Python side: PiecewiseTreeRegressor.predict dispatch, "
+           "_predict_reglin (every row is [X[r],1].betas_[leaf(r)]), fit creates the requested criterion, restores the name on every exit, fits the "
+           "per-leaf regressions iff 'mselin'. Bounded (compiled code): exact rational oracle for both criteria, ALL (start,pos,end), n<=5 (7), unit/mixed "
+           "weights, 3 sample orders; the extracted text executed by CPython against the compiled extension; 'mselin' vs lstsq; leaf means; "
+           "max_depth/min_samples_leaf.",
+      note="Reading the extracted text as Python assumes mathematical double / integer arithmetic and successful allocation; every index is checked "
+           "although the C code disables bounds checks. 'mselin' (LAPACK through raw pointers) and the scikit-learn tree builder are bounded only; "
+           "predict_leaves / _fit_reglin are assumed on the Python side. Known finding: the fast criterion's prefix sums are in the init order, which the "
+           "splitter then re-sorts (the proved invariant is relative to the order given to init).",
+      technique="deductive verification of mechanically extracted Cython text (loop invariants over ghost range sums, Lean-checked lemma schemas, z3) and of "
+                "the Python side; 'mselin' by bounded enumeration")
